@@ -217,6 +217,19 @@ def history_pass(G):
                     for k2 in partners:
                         one(k2, cs, o2)
                         one(key, cs, o1)
+    # histories ACROSS rows: every ordered pair of rows that share the event (the other gender) or the gender (a neighbouring event), masters ages in the
+    # same and in neighbouring bands, each answer against the formula
+    for key in keys:
+        g, e = key
+        others = [k for k in keys if k != key and (k[1] == e or (k[0] == g and abs(keys.index(k) - keys.index(key)) <= 2))]
+        cs1 = int(grid_hi(G, key) * 0.6)
+        for k2 in others:
+            cs2 = int(grid_hi(G, k2) * 0.6)
+            for a1, a2 in ((52, 50), (50, 52), (67, 65), (52, None), (None, 52), (52, 57), (36, 39)):
+                hist = []
+                one(key, cs1, dict(age=a1, esaa=False))
+                one(k2, cs2, dict(age=a2, esaa=False))
+                one(key, cs1, dict(age=a1, esaa=False))
     acc.samples.append(dict(history=[['M', '800', 120.0, None, True], ['M', '800', 120.0, None, False], ['M', '800', 120.0, 50, False]]))
     return acc.pack()
 
@@ -250,7 +263,12 @@ def run(tier):
         chunks.append((k, mid, mid + (200 if tier == 'quick' else 1000), list(range(1, 115)), False, 1))
         # ages that are not whole numbers (worked out from dates): the band is that of the completed years
         chunks.append((k, mid, mid + (40 if tier == 'quick' else 400), [34.5, 34.6, 34.99, 35.0, 35.01, 39.5, 39.7, 40.0, 44.5, 44.9, 49.5, 52.25, 59.51, 64.999, 99.99, 104.5], False, 1))
-    t2 = merge(rep, pmap(work, chunks), part='every age 1..114 on a window of each row')
+        # ages that mean "no age": 0, False, 0.0, negative
+        chunks.append((k, mid, mid + 20, [0, False, 0.0, -1, -40.5], False, 1))
+        # marks far beyond the end of the grid (up to 40 times the zero point / 25 m / 120 m): still a non-negative int, still the formula
+        top = grid_hi(G, k)
+        chunks.append((k, top, top * 40, [None, 50], False, max(1, top * 39 // 60)))
+    t2 = merge(rep, pmap(work, chunks), part='every age 1..114 on a window of each row; fractional, zero and negative ages; marks far beyond the grid')
     # (2b) letter-case spellings of gender and event (the scoring key is case-insensitive) on a window of each table row
     chunks = []
     for k in keys:
